@@ -2,6 +2,7 @@
 from props import cells
 
 RULE = ("the 14 conversion/normalisation commands (CvtToFuzzy, CvtFromFuzzy, CvtToBinary, Cat, Curve, ZScore, CurveZScore, MeanToMid and the Normalize family) on arrays with >= 2 distinct valid values, explicit/default thresholds incl. 0, both directions, unsorted curve points, values on control points and on the mean, masked cells; compared with the exact reference mappings and with the Coq model (sigma is numpy's, checked against the exact variance). non-trivial = distinct case with >= 2 distinct valid values")
+RULE += (' Every stream also has a stratified part: each command once per unusual element type (uint64 as the NetCDF reader returns for Positive Integer, uint8, int16), weighted commands with a weight of exactly 0 next to a cell missing only in that input, nine to twelve input layers, the same result mentioned twice, inputs re-laid in memory (Fortran order, transposed / reversed / strided views), B written before A, a Metadata argument on every third run. Thresholds exactly +1 / -1, integer value tables with fractional defaults, one layer used by several conversions in one model.')
 TRUSTED = ["exact reference evaluator in drivers/cells_common.py (written from the property statements and the user documentation)",
            "numpy.ma.std enters the model as the oracle sigma (checked against the exact variance to 2^-20 relative)"]
 ASSUMPTIONS = ["exact rational arithmetic; IEEE rounding is absorbed by the tolerance 2^-36 relative; nan/inf results are not printable into Coq and are judged by the oracle only"]
